@@ -30,7 +30,7 @@ FUNCTIONS = ['hotxlfp.formulas.mathtrig:%s' % n for n in _MT] + ['hotxlfp.formul
 RULE = ('seeded counts are quick / thorough (one number: both tiers) and are multiplied by scale, fixed lists and grids '
         'are not.  round: ROUND/ROUNDUP/ROUNDDOWN x digits -6..6 on 1500 / 12000 seeded numbers per function (ints '
         '-30..30, ints below 10^8, k*10^j with k < 2000 and j 1..6, dyadic fractions k/2^j with k < 2^20 and j 1..10, '
-        'exact ties (2k+1)*10^j/2 and (2k+1)/8, decimal fractions below 10^4 with 1..4 places, 13 specials such as 0, '
+        'exact ties (2k+1)*10^j/2 and (2k+1)/8, decimal fractions below 10^4 with 1..4 places, (5%) a number of 10^3..10^9 a hair away from a whole one (n +- 2^-j, j 1..12, or n(1 +- 10^-u), u 9.1..13), 13 specials such as 0, '
         '0.0, +-0.5, +-1e-7, 0.1, 1000.1; either sign) plus a grid of 282 per function (every digits x multiples of '
         '10^-digits, the ints next to them, eighths); cf: CEILING/FLOOR (2000 / 15000 each; the .MATH and .PRECISE names '
         '1/5 each; 8% one-argument) on the same numbers x significance (80% one of 30 fixed ints / dyadic / decimal '
@@ -796,8 +796,16 @@ def gen_number(rng):
         v = rng.choice([1, -1]) * (2 * rng.randrange(0, 500) + 1) * 10 ** rng.randrange(0, 5) / 2.0
         if rng.random() < 0.5:
             v = rng.choice([1, -1]) * (2 * rng.randrange(0, 50) + 1) / 8.0     # .125 .375 …: ties at 2 digits
-    elif r < 0.95:
+    elif r < 0.90:
         v = rng.choice([1, -1]) * round(rng.uniform(0, 10 ** rng.randrange(0, 5)), rng.randrange(1, 5))
+    elif r < 0.95:
+        # a large number a hair away from a whole one (relative distance 1e-9 .. 1e-13): the fraction still counts
+        n = rng.randrange(10 ** 3, 10 ** rng.randrange(4, 10))
+        if rng.random() < 0.5:
+            v = n + rng.choice([1, -1]) * 2.0 ** -rng.randrange(1, 13)          # exact in doubles
+        else:
+            v = n * (1 + rng.choice([1, -1]) * 10 ** -rng.uniform(9.1, 13))
+        v = rng.choice([1, -1]) * v
     else:
         v = rng.choice([0, 0.0, 0.5, -0.5, 1.0, -1.0, 2.5, -2.5, 1e-7, -1e-7, 0.1, 0.7, 1000.1])
     return v
